@@ -223,3 +223,48 @@ Proof. exact plain_ttx_to_srt. Qed.
 Print Assumptions C07_ttx_to_srt.
 Example C07_ttx_plain_example : ttx_plain_ok ex_plain_ttx /\ srt_plain_ok (ptrunc 1000000 ex_plain_ttx) /\ length ex_plain_ttx = 3%nat.
 Proof. split; [exact ex_plain_ttx_ok | split; [exact ex_plain_ttx_srt_ok | reflexivity]]. Qed.
+
+(* ---- styled sources converted into TTML (Model/ConvTtml.v, Proofs/ConvTtmlProofs.v) ----
+   What WriteToTTML sees of the cues the SubRip, WebVTT and SSA readers produce: SubRip - the font colour as tts:color on the
+   run's span, nothing else; WebVTT - the regions map as layout and the cue's region, the STYLE entry as an empty style
+   element; SSA - the title as ttm:title, every style as an empty style element and the event's style as the p's style;
+   every run is its own span.  The library's destination bytes are compared with convert_S_ttml on the styled generated
+   sources (suite convstyledttml).  Theorems, at byte level (Go-exact writer bytes with the default indent, XML parser
+   model, tree reader): when the converted value is representable in TTML ([repr_doc]: at least one cue, times in
+   [0, max_int64], at least one line per cue, no line break inside a run, references closed) and XML-legal ([legal_doc]), the
+   conversion succeeds and the document reads back with the same cues in the same order, times truncated to the
+   millisecond, and per line EXACTLY the same text (the TTML writer inserts no white space between runs: no [nows]
+   normalisation is needed).  In a module because the TTML model shares names with other models. *)
+From Astisub Require Model.Stl Model.PlainStl Model.ConvTtml Proofs.ConvTtmlProofs Model.Ttml Model.TtmlGo Proofs.TtmlDocSpec Model.PlainTtml Model.PlainSsa Model.Ssa.
+Module C07_TTML.
+Import Astisub.Model.Ttml Astisub.Model.TtmlGo Astisub.Proofs.TtmlDocSpec Astisub.Model.PlainTtml Astisub.Model.Ssa Astisub.Model.PlainSsa
+  Astisub.Model.Stl Astisub.Model.PlainStl Astisub.Model.ConvTtml Astisub.Proofs.ConvTtmlProofs.
+Theorem C07_srt_to_ttml_styled : forall l, repr_doc (conv_srt_ttml l) = true -> legal_doc (conv_srt_ttml l) = true ->
+  exists b, to_ttml_bytes (conv_srt_ttml l) = Ok b /\ ttml_dec2 b = Ok (ptrunc 1000000 (srt_to_plain l)).
+Proof. exact srt_to_ttml_styled. Qed.
+Theorem C07_vtt_to_ttml_styled : forall d, repr_doc (conv_vtt_ttml d) = true -> legal_doc (conv_vtt_ttml d) = true ->
+  exists b, to_ttml_bytes (conv_vtt_ttml d) = Ok b /\ ttml_dec2 b = Ok (ptrunc 1000000 (vtt_to_plain d)).
+Proof. exact vtt_to_ttml_styled. Qed.
+Theorem C07_ssa_to_ttml_styled : forall d, repr_doc (conv_ssa_ttml d) = true -> legal_doc (conv_ssa_ttml d) = true ->
+  exists b, to_ttml_bytes (conv_ssa_ttml d) = Ok b /\ ttml_dec2 b = Ok (ptrunc 1000000 (ssa_to_plain d)).
+Proof. exact ssa_to_ttml_styled. Qed.
+(* EBU STL: the GSI block's frame rate, programme title and mapped language reach the TTML writer as metadata (title as
+   ttm:title, language as xml:lang) - the reason why stl->ttml is not the plain-view conversion *)
+Theorem C07_stl_to_ttml_styled : forall d, repr_doc (conv_stl_ttml d) = true -> legal_doc (conv_stl_ttml d) = true ->
+  exists b, to_ttml_bytes (conv_stl_ttml d) = Ok b /\ ttml_dec2 b = Ok (ptrunc 1000000 (stl_to_plain d)).
+Proof. exact stl_to_ttml_styled. Qed.
+(* file to file *)
+Theorem C07_convert_srt_ttml_styled : forall data l, read_srt data = Ok l ->
+  repr_doc (conv_srt_ttml l) = true -> legal_doc (conv_srt_ttml l) = true ->
+  exists b, convert_srt_ttml data = Ok b /\ ttml_dec2 b = Ok (ptrunc 1000000 (srt_to_plain l)).
+Proof. exact convert_srt_ttml_styled. Qed.
+Example C07_to_ttml_styled_examples :
+  (repr_doc (conv_srt_ttml ex_srt_styled) = true /\ legal_doc (conv_srt_ttml ex_srt_styled) = true) /\
+  (repr_doc (conv_vtt_ttml ex_vtt_styled) = true /\ legal_doc (conv_vtt_ttml ex_vtt_styled) = true) /\
+  (repr_doc (conv_ssa_ttml ex_ssa_styled) = true /\ legal_doc (conv_ssa_ttml ex_ssa_styled) = true).
+Proof. exact (conj ex_srt_styled_ok (conj ex_vtt_styled_ok ex_ssa_styled_ok)). Qed.
+End C07_TTML.
+Print Assumptions C07_TTML.C07_srt_to_ttml_styled.
+Print Assumptions C07_TTML.C07_vtt_to_ttml_styled.
+Print Assumptions C07_TTML.C07_ssa_to_ttml_styled.
+Print Assumptions C07_TTML.C07_stl_to_ttml_styled.
